@@ -225,7 +225,85 @@ class C16(Prop):
             out.append(Case("time", rng.choice(["local", "threads"]), [("pipe", [pipe])], evs,
                             {"kind": "iterator-second", "n": n, "op": k}))
         out += self.stream_cases(rng, tier)
-        return tg.with_units(seed, out)
+        return tg.with_units(seed, out) + self.nested_cases(random.Random(seed + 1616), tier)
+
+    # ------------------------------------------------------------------ producers in a side branch of a tree
+    def _wrap(self, rng, inner):
+        """`inner` below a random stack of forwarding operators: single-input ones and two-input cells (as main
+        or as second input; never as the notifier of skip_until, whose is_finished does not consult the
+        downstream — the recorded rest of finding 11)."""
+        for _ in range(rng.randint(1, 4)):
+            r = rng.random()
+            if r < 0.55:
+                inner = rng.choice(MIDDLE) + [inner]
+            elif r < 0.8:
+                inner = [rng.choice(TWO), inner, ["hot", "1"]]
+            else:
+                inner = [rng.choice([k for k in TWO if k != "skipuntil"]), ["hot", "1"], inner]
+        return inner
+
+    def nested_cases(self, rng, tier):
+        """The stream has ALREADY been ended (by `take k` over a cold first input of `merge`) when the branch with
+        the producer is subscribed: every observer on the way down must answer is_finished() = true, so a counting
+        iterator is never pulled and an interval retires at its first tick.  Tree shapes the chain model does not
+        have: judged on the implementation alone (oracle), no comparison with the model."""
+        out = []
+        reps = 400 if tier == "quick" else 4000
+        for _ in range(reps):
+            k = rng.randint(1, 3)
+            first = ["iter"] + [str(100 + i) for i in range(k + rng.randint(0, 2))]
+            if rng.random() < 0.6:
+                branch = self._wrap(rng, ["iterc", str(rng.randint(1, 60))])
+                pipe = ["take", str(k), ["merge", first, branch]]
+                evs = [["sub"], ["q", "pulls"], ["emit", "1", sx.N(7)], ["q", "pulls"]]
+                out.append(Case("pipe", rng.choice(["local", "threads"]), [("pipe", [pipe])], evs,
+                                {"kind": "nested-iterator"}))
+            else:
+                p = rng.choice([1, 2])
+                branch = self._wrap(rng, ["interval", str(p)])
+                pipe = ["take", str(k), ["merge", first, branch]]
+                evs = [["sub"], ["run"]]
+                for _ in range(2 * p + 3):
+                    evs += [["adv", "1"], ["run"]]
+                out.append(Case("time", rng.choice(["local", "threads"]), [("pipe", [pipe])], evs,
+                                {"kind": "nested-interval", "period": p}))
+        return out
+
+    def compare_from(self, case):
+        if self._is_nested(case):
+            return len(case.events)
+        return 0
+
+    def _is_nested(self, case):
+        f = case.field("pipe")
+        try:
+            return (bool(f) and f[0][0] == "take" and f[0][2][0] == "merge" and f[0][2][1][0] == "iter"
+                    and 1 <= int(f[0][1]) <= len(f[0][2][1]) - 1 and f[0][2][2][0] not in ("iterc", "interval"))
+        except Exception:
+            return False
+
+    def nested_oracle(self, case, lines):
+        heads = tg._heads_of(case.field("pipe")[0], set())
+        for k, e in enumerate(case.events):
+            b = lines.get(k) or ""
+            if b == "PANIC":
+                return {"kind": "panic", "event": k, "detail": b}
+            if b.startswith("pulls=") and int(b[6:]) != 0:
+                return {"kind": "iterator-drained-nested", "event": k,
+                        "detail": f"{b}: the stream had ended before the iterator's branch was subscribed"}
+        if "interval" in heads:
+            p = time_budget(case.field("pipe")[0])
+            last = None
+            for k, e in enumerate(case.events):
+                b = lines.get(k) or ""
+                if b.startswith("o=") and e[0] == "run":
+                    _, kv = tg.parse_suffix(b)
+                    if kv.get("t", 0) >= p + 1:
+                        last = (k, kv.get("live", 0), kv.get("t", 0))
+            if last and last[1] != 0:
+                return {"kind": "producer-not-retired-nested", "event": last[0],
+                        "detail": f"still {last[1]} live task(s) at t={last[2]} although the stream ended at subscription"}
+        return None
 
     def stream_cases(self, rng, tier):
         """from_stream / from_stream_result below an early-terminating operator."""
@@ -312,6 +390,8 @@ class C16(Prop):
 
     def oracle(self, case, lines, model_lines=None):
         kind = case.meta.get("kind", "")
+        if self._is_nested(case):
+            return self.nested_oracle(case, lines)
         if kind == "stream" or self._src(case) in STREAMS:
             return self.stream_oracle(case, lines, model_lines)
         if kind in ("iterator", "iterator-second") or case.field("pipe") and (
